@@ -18,6 +18,28 @@ pub mod verif_std {
     pub use std::thread::*;
     pub use super::super::verif_facade::{sleep, spawn};
   }
+  /// `Instant` on the VIRTUAL clock (what `thread::sleep` advances): code that measures elapsed time sees the same
+  /// time as code that sleeps.  `SystemTime` stays real (only `timestamp` uses it; its values are not compared).
+  pub mod time {
+    pub use std::time::*;
+    use std::ops::{Add, AddAssign, Sub, SubAssign};
+    #[derive(Clone, Copy, PartialEq, Eq, PartialOrd, Ord, Hash, Debug)]
+    pub struct Instant(u64);
+    impl Instant {
+      pub fn now() -> Instant { Instant(super::super::verif_facade::now()) }
+      pub fn elapsed(&self) -> Duration { Instant::now().saturating_duration_since(*self) }
+      pub fn duration_since(&self, earlier: Instant) -> Duration { self.saturating_duration_since(earlier) }
+      pub fn saturating_duration_since(&self, earlier: Instant) -> Duration { Duration::from_millis(self.0.saturating_sub(earlier.0)) }
+      pub fn checked_duration_since(&self, earlier: Instant) -> Option<Duration> { self.0.checked_sub(earlier.0).map(Duration::from_millis) }
+      pub fn checked_add(&self, d: Duration) -> Option<Instant> { self.0.checked_add(d.as_millis() as u64).map(Instant) }
+      pub fn checked_sub(&self, d: Duration) -> Option<Instant> { self.0.checked_sub(d.as_millis() as u64).map(Instant) }
+    }
+    impl Add<Duration> for Instant { type Output = Instant; fn add(self, d: Duration) -> Instant { Instant(self.0 + d.as_millis() as u64) } }
+    impl Sub<Duration> for Instant { type Output = Instant; fn sub(self, d: Duration) -> Instant { Instant(self.0.saturating_sub(d.as_millis() as u64)) } }
+    impl Sub<Instant> for Instant { type Output = Duration; fn sub(self, o: Instant) -> Duration { self.saturating_duration_since(o) } }
+    impl AddAssign<Duration> for Instant { fn add_assign(&mut self, d: Duration) { self.0 += d.as_millis() as u64; } }
+    impl SubAssign<Duration> for Instant { fn sub_assign(&mut self, d: Duration) { self.0 = self.0.saturating_sub(d.as_millis() as u64); } }
+  }
 }
 
 #[allow(dead_code)]
